@@ -102,6 +102,10 @@ def run_pelt_table(n, msl, pen, p, variant, slacks, slacks2=None):
     from skchange.change_detectors import PELT
 
     C = build_table(n, msl, slacks)
+    if variant == "neg":
+        # NEGATIVE costs (as the Gaussian costs give on small-variance data): subtract 3 per sample; every segmentation's
+        # total moves by the same -3n, so optima and the split inequality are unchanged
+        C = [[None if v is None else v - 3 * (e - s_) for e, v in enumerate(row)] for s_, row in enumerate(C)]
     if variant == "poison":
         T = to_array(C, n, POISON)
         msize = 1
@@ -203,6 +207,10 @@ def table_configs(tier):
     for msl in (1, 2, 3, 4):
         for n in range(max(2 * msl, 6), 9 + 1):
             out.append((n, msl, 1, 1, "min", (0, 1, 2), 2))
+    # negative costs
+    for msl in (1, 2, 3):
+        for n in range(max(2 * msl, 5), (8 if tier == "quick" else 10) + 1):
+            out.append((n, msl, 1, 1, "neg", (0, 1, 2), 2))
     # wide dynamic range: a slack of 4e6 next to slacks of 1 (no comparison may use a tolerance relative to the totals)
     for msl in (1, 2):
         for n in range(6, (8 if tier == "quick" else 10) + 1):
